@@ -28,7 +28,7 @@ def plain_groups(bases=(1, 2, 4, 8, 16, 32, 64, 128), max_dots=2, tuplets=True, 
         for d in range(max_dots + 1):
             if b * 2 ** d <= 128:
                 groups.append([[b, d, 1, 1]])
-        if tuplets and (tuplet_bases is None or b in tuplet_bases) and 2 <= b <= 64:
+        if tuplets and (b in tuplet_bases if tuplet_bases is not None else 2 <= b <= 64):
             for (p, q) in RV.RATIOS:
                 groups.append([[b, 0, p, q]] * p)
     if ok is not None:
